@@ -191,6 +191,18 @@ func buildScenario(r *simk.Run, prop string, tightP float64) *simk.Violation {
 			return g, nil
 		}
 		nTx := c.Intn(15)
+		// big-mempool variant (4%): more transactions than one builder stream batch (256), so the builder
+		// prefetches the next batch on its own goroutine while a client re-submits transactions it already
+		// submitted (a gossip re-delivery)
+		big := c.Bool(0.04)
+		if big {
+			nTx = 262 + c.Intn(100)
+			s.MaxSteps = 1500000
+			s.ClockTask = false
+			for d := range rules.MaxBlockUnits {
+				rules.MaxBlockUnits[d] = 1 << 40
+			}
+		}
 		var gens []gen
 		for i := 0; i < nTx; i++ {
 			g, err := mk()
@@ -206,7 +218,7 @@ func buildScenario(r *simk.Run, prop string, tightP float64) *simk.Violation {
 			parentTxs = append(parentTxs, gens[j].tx)
 			gens[j].note += "already-in-parent "
 		}
-		if c.Bool(tightP) && len(gens) > 0 {
+		if !big && c.Bool(tightP) && len(gens) > 0 {
 			// tight limits: computed from the generated txs' own units so that skip/stop paths fire
 			d := c.Intn(fees.FeeDimensions)
 			var us []uint64
@@ -234,16 +246,35 @@ func buildScenario(r *simk.Run, prop string, tightP float64) *simk.Violation {
 			return
 		}
 		mp = mempool.New[*chain.Transaction](trace.Noop, 64, 64)
+		if big {
+			mp = mempool.New[*chain.Transaction](trace.Noop, 4096, 4096)
+		}
 		var initial []*chain.Transaction
 		var late []*chain.Transaction
 		for _, g := range gens {
-			if c.Bool(0.15) {
+			if !big && c.Bool(0.15) {
 				late = append(late, g.tx)
 			} else {
 				initial = append(initial, g.tx)
 			}
 		}
 		mp.Add(ctx, initial)
+		var resubmit [][]*chain.Transaction
+		var resubmitGap []int
+		if big {
+			for g := 0; g < 5; g++ {
+				var grp []*chain.Transaction
+				for k := 0; k <= c.Intn(10); k++ {
+					grp = append(grp, initial[c.Intn(len(initial))])
+				}
+				resubmit = append(resubmit, grp)
+			}
+			lo := 256 + c.Intn(len(initial)-258)
+			resubmit = append(resubmit, initial[lo:min(len(initial), lo+6)])
+			for range resubmit {
+				resubmitGap = append(resubmitGap, c.Intn(1500))
+			}
+		}
 		vw, err := env.ValidityWindow(ctx)
 		if err != nil {
 			fail("harness", "%v", err)
@@ -254,6 +285,22 @@ func buildScenario(r *simk.Run, prop string, tightP float64) *simk.Violation {
 		builder := chain.NewBuilder(trace.Noop, env.RF, logging.NoLog{}, env.MM, env.BH, mp, vw, metrics, cfg)
 		if len(late) > 0 {
 			s.Go("client.add", 0, func() { mp.Add(ctx, late) })
+		}
+		if big {
+			cfg.TargetBuildDuration = time.Hour
+			cfg.TargetTxsSize = 1 << 26
+			builder = chain.NewBuilder(trace.Noop, env.RF, logging.NoLog{}, env.MM, env.BH, mp, vw, metrics, cfg)
+			s.Probe("big_mempool_build")
+			s.Go("client.resubmit", 0, func() {
+				for gi, grp := range resubmit {
+					// the client is slow compared with the builder: it lets other tasks take a seeded number of
+					// steps between two submissions, so that they land anywhere in the build
+					for k := 0; k < resubmitGap[gi]; k++ {
+						s.Yield("client.resubmit.wait", 0)
+					}
+					mp.Add(ctx, grp)
+				}
+			})
 		}
 		notes := make([]string, len(gens))
 		for i, g := range gens {
